@@ -1,7 +1,7 @@
 #!/usr/bin/env python3
 """Second benign bank: behaviour-preserving refactorings written by independent sub-agents (selftest/benign_patches/<id>.diff with
 <id>.md = their argument why behaviour is unchanged). Each is applied to a scratch worktree of /repo's HEAD (outside /repo and /verif,
-removed afterwards) and all 20 checks must stay silent. usage: benignpatches.py [filter] [--dir <dir with */patch.diff>]"""
+removed afterwards) and all 20 checks must stay silent. usage: benignpatches.py [filter] [--dir <dir with */patch.diff>] [--pids C01,C05]"""
 import glob, os, shutil, subprocess, sys, tempfile
 VERIF = os.path.dirname(os.path.dirname(os.path.abspath(__file__)))
 args = [a for a in sys.argv[1:]]
@@ -9,6 +9,11 @@ src = os.path.join(VERIF, "selftest", "benign_patches")
 if "--dir" in args:
     i = args.index("--dir")
     src = args[i + 1]
+    del args[i:i + 2]
+pids = ["all"]
+if "--pids" in args:
+    i = args.index("--pids")
+    pids = [args[i + 1]]
     del args[i:i + 2]
 flt = args[0] if args else ""
 patches = sorted(glob.glob(os.path.join(src, "*.diff")) + glob.glob(os.path.join(src, "*", "REFACTOR", "*", "patch.diff")))
@@ -25,7 +30,7 @@ for p in patches:
             results.append((name, "PATCH-DOES-NOT-APPLY", []))
             continue
         env = dict(os.environ, IPP_REPO=dst, IPP_EVIDENCE_DIR=os.path.join(tmp, "ev"))
-        r = subprocess.run([os.path.join(VERIF, "check"), "all"], env=env, stdout=subprocess.PIPE, stderr=subprocess.STDOUT, text=True)
+        r = subprocess.run([os.path.join(VERIF, "check")] + pids, env=env, stdout=subprocess.PIPE, stderr=subprocess.STDOUT, text=True)
         lines = [l.strip() for l in r.stdout.splitlines() if l.strip().startswith("[") or l.startswith("ERROR")]
         status = "silent" if r.returncode == 0 else ("DOES-NOT-COMPILE" if r.returncode == 2 else "ALARM")
         results.append((name, status, sorted(set(l[:260] for l in lines))[:5]))
